@@ -8,6 +8,10 @@ so the schedule quantifier is reduced to per-function facts:
      --nondet-static (arbitrary pre-state of every mutable static): the byte-level oracle assertions
      must still hold (results depend on arguments only), all pointer checks must hold (effects go
      through the arguments only);
+ (d) readers do not write: all readers of a format are called from one wrapper whose contract has an EMPTY
+     assigns clause, enforced by CBMC's dynamic frame condition checking (goto-instrument --dfcc): a getter
+     that writes anything outside its own stack frame - even the same bytes back into the PDU - fails;
+     this is what makes read-only calls on a SHARED PDU race free;
  (c) composition (argument, not exploration): functions whose footprint is their argument objects
      plus immutable tables are data-race free on distinct arguments; read-only functions (C01: reads
      do not modify the buffer) are race free on a shared PDU.
@@ -70,6 +74,20 @@ def inventory(scratch):
             if line and not line.startswith('Reading') and not line.startswith('**') and re.match(r'^[\w$]+$', line):
                 undefined.add((os.path.relpath(src, core.REPO), line))
     return srcs, statics, undefined, errors
+
+
+def reader_jobs(tier, only):
+    """(d) readers do not write: empty assigns clause enforced by dynamic frame condition checking"""
+    jobs = []
+    for fmt in B.all_formats():
+        if only and fmt not in only.split(','):
+            continue
+        b = B.bind(fmt)
+        src, n = G.c16_readers(b)
+        jobs.append(Job('c16.readers-do-not-write.%s' % fmt, src, b.sources + (['src/avtp/CommonHeader.c'] if fmt != 'common' and b.legacy else []),
+                        unwind=70, unwindset=WALKER, dfcc='vp_readers',
+                        meta={'format': fmt, 'readers': n, 'contract': 'assigns() (empty) enforced with goto-instrument --dfcc'}))
+    return jobs
 
 
 def frame_jobs(tier, only):
@@ -163,6 +181,7 @@ def run(tier, only=None):
                        and not f.startswith('avtp_') and f != 'IsFieldDescriptorValid'})
     # (b) frame check under an arbitrary static pre-state
     fj = frame_jobs(tier, only)
+    chk.run(reader_jobs(tier, only))
     res = core.run_jobs(fj, chk.scratch)
     chk.results += res
     frame_fail = {}
